@@ -3,12 +3,17 @@
 use crate::rng::Rng;
 use crate::{Args, Case};
 
+pub mod frame;
+pub mod typestate;
 pub mod varint;
 
 /// returns (Coq correspondence module, cases)
 pub fn generate(suite: &str, rng: &mut Rng, thorough: bool) -> (&'static str, Vec<Case>) {
     match suite {
         "varint" => ("VarintC", varint::generate(rng, thorough)),
+        "frame" => ("FrameC", frame::generate_frame(rng, thorough)),
+        "sheader" => ("FrameC", frame::generate_sheader(rng, thorough)),
+        "typestate" => ("StreamTSC", typestate::generate(rng, thorough)),
         _ => panic!("unknown suite {}", suite),
     }
 }
@@ -16,6 +21,8 @@ pub fn generate(suite: &str, rng: &mut Rng, thorough: bool) -> (&'static str, Ve
 pub fn exec(f: u32, args: &Args) -> Args {
     match f / 100 {
         1 => varint::exec(f, args),
+        2 => frame::exec(f, args),
+        3 => typestate::exec(f, args),
         _ => panic!("unknown function id {}", f),
     }
 }
@@ -28,6 +35,8 @@ pub fn oracle(f: u32, args: &Args, out: &Args) -> Option<(&'static str, String)>
     }
     match f / 100 {
         1 => varint::oracle(f, args, out),
+        2 => frame::oracle(f, args, out),
+        3 => typestate::oracle(f, args, out),
         _ => None,
     }
 }
